@@ -544,8 +544,9 @@ def startProperty (st : HState) (attrs : List (Str × Str)) : Except Err HState 
       | none => .error .keyError
       | some rw =>
         let l := lower rw
-        let readable := l = kRead || l = kReadWrite
-        let writeable := l = kWrite || l = kReadWrite
+        -- `rw.lower() in ('read', 'readwrite')` / `in ('write', 'readwrite')`: the tuples come from the table
+        let readable := Gen.IntroStd.readableWords.contains l
+        let writeable := Gen.IntroStd.writeableWords.contains l
         .ok { st with member := .property (Property.new name sig readable writeable .true),
                       memberAdded := false, isMethod := some false }
 
@@ -560,7 +561,7 @@ def startAnnotation (st : HState) (attrs : List (Str × Str)) : Except Err HStat
         match st.member with
         | .property p =>
           if st.memberAdded then .error .unmodelled
-          else .ok { st with member := .property { p with emits := .bool (v = kTrue || v = kInvalidates) } }
+          else .ok { st with member := .property { p with emits := .bool (Gen.IntroStd.emitsTrueWords.contains v) } }
         -- `None`, `Method` and `Signal` have no attribute / slot `emits`
         | _ => .error .attributeError
     else .ok st
